@@ -68,7 +68,7 @@ package tokenV2
 //@       && ret(call (jws.Message).Signatures #1)[k].ProtectedHeaders().JWKSetURL() == ""
 //@       && ret(call (jws.Message).Signatures #1)[k].ProtectedHeaders().X509CertChain() == nil
 //@       && ret(call (jws.Message).Signatures #1)[k].ProtectedHeaders().X509URL() == ""
-//@   ensures [at-least-one-signature] isNilIface(result) ==> len(ret(call (jws.Message).Signatures #1)) > 0
+//@   ensures [exactly-one-signature] isNilIface(result) ==> len(ret(call (jws.Message).Signatures #1)) == 1
 //@   ensures [all-signatures-acceptable] isNilIface(result) ==> forall k int :: 0 <= k && k < len(ret(call (jws.Message).Signatures #1)) ==>
 //@          acceptableSignatureAlgorithm(ret(call (jws.Message).Signatures #1)[k].ProtectedHeaders().Algorithm())
 //@       && isNilIface(ret(call (jws.Message).Signatures #1)[k].ProtectedHeaders().JWK())
